@@ -166,6 +166,21 @@ func init() {
 		ex.havocFreshBytes(st, base, n)
 		cont(st, fr, res)
 	}
+	intrinsics["encoding/hex.Decode"] = func(ex *Exec, fr *Frame, in ssa.Instruction, fn *ssa.Function, args []Value, st *State, cont callCont) {
+		// hex.Decode(dst, src) writes len(src)/2 bytes into dst WITHOUT checking its length (the stdlib
+		// documents that it expects dst to be large enough): an index panic otherwise
+		dst, src := args[0].(*SliceV), args[1].(*SliceV)
+		n := BVBin("bvlshr", src.Len, BVc(1, 64))
+		if in != nil {
+			ex.safe(st, in, "index", BVCmp("bvule", n, dst.Len))
+		}
+		k := FreshVar("hexn", BV(64))
+		st.Assume(BVCmp("bvule", k, n))
+		e := st.SymValue(errorType, "hexerr", *st.nextRg).(*IfaceV)
+		ex.checkFrameRange(st, in, dst, n)
+		ex.havocRange(st, types.Typ[types.Uint8], &SliceV{Base: dst.Base, Off: dst.Off, Len: n, Cap: n})
+		cont(st, fr, &TupleV{Elems: []Value{k, e}})
+	}
 	intrinsics["(*encoding/base64.Encoding).DecodeString"] = func(ex *Exec, fr *Frame, in ssa.Instruction, fn *ssa.Function, args []Value, st *State, cont callCont) {
 		str := args[1].(*Term)
 		base := st.FreshRegion()
